@@ -286,6 +286,47 @@ PROPS['C14'] = {
 PROPS['C14']['kani']['thorough'] = PROPS['C14']['kani']['quick']
 
 
+SPL = ['src/spline.rs: constrained_spline (zip/chain/skip wiring)']
+PROPS['C04'] = {
+    'verus': ['u_spline'],
+    'kani': {
+        'quick': [kset('c04', [H(f'c04_wiring_{side}_n{n}', 'spline', f'{n} knots; knot coordinates are the integers 0..15; f_dx and segment replaced by recording stubs', False, SPL)
+                               for side in ('left', 'right') for n in (3, 4, 5)], timeout=2400, extra=['-Z', 'stubbing', '--solver', 'kissat'])],
+        'thorough': [kset('c04', [H(f'c04_wiring_{side}_n{n}', 'spline', f'{n} knots; knot coordinates are the integers 0..15; f_dx and segment replaced by recording stubs', False, SPL)
+                                  for side in ('left', 'right') for n in (3, 4, 5, 6)], timeout=6000, extra=['-Z', 'stubbing', '--solver', 'kissat'])],
+    },
+    'probe': True,
+    'level': 'other',
+    'explanation': 'Verus contracts on the real bodies of spline::f_dx (result == 0 where the adjacent secant slopes differ in sign or one is zero, else their harmonic mean '
+                   '2 s01 s12/(s01+s12)) and spline::segment (end == right abscissa verbatim; the cubic passes through both knots and has the two prescribed end slopes), '
+                   'exact-real model, all finite knots with x0 != x1. Kani (stubbing f_dx and segment by recording functions) checks the wiring of constrained_spline on the '
+                   'compiled crate: one cubic per interval, cubic i built from knots i, i+1 and slopes f_i, f_{i+1}; interior f_i = f_dx(k_{i-1}, k_i, k_{i+1}); end slopes '
+                   '= 3/2 * end secant - 1/2 * neighbouring slope (bit-equal to the property\'s formula). Together: interpolation, C1 joins with the harmonic-mean slope.',
+    'assumptions': [FM_NOTE, FM_BITS, TY_NOTE, Z3W,
+                    'bounded (Kani wiring): 3..5 knots (quick) / 3..6 (thorough), coordinates in 0..15; the numeric kernels are stubbed there and proved separately by Verus',
+                    'UNCHECKED: the floating-point deviation bound (small multiple of 2^-53 scaled by the conditioning (|x|/dx)^3) - exact arithmetic only'],
+}
+LIN = ['src/linear.rs: linear (closure over the running forced knot)', 'src/linear.rs: incr_linear']
+PROPS['C06'] = {
+    'verus': ['u_linear'],
+    'kani': {
+        'quick': [kset('c06', [H(f'c06_wiring_{side}_n{n}', 'linear', f'{n} knots, every finite f64 coordinate; segment replaced by a recording stub', False, LIN)
+                               for side in ('left', 'right') for n in (2, 3, 4, 5)], timeout=1800, extra=['-Z', 'stubbing'])],
+    },
+    'probe': True,
+    'level': 'other',
+    'explanation': 'Verus contracts on the real bodies of linear::segment (end == right abscissa verbatim; narrower than machine epsilon: constant at the left ordinate, '
+                   'otherwise slope dy/dx; always through the left knot, and through the right knot when at least epsilon wide) and linear::incr_linear (forced knot = '
+                   '(max of the abscissae, ordinate verbatim), returns segment(previous forced knot, forced knot)). Kani (segment stubbed by a recording function, full-range '
+                   'finite f64 knots) checks linear(): one segment per consecutive pair, segment i built from forced knots i and i+1, ends are the running maximum.',
+    'assumptions': [FM_NOTE, FM_BITS, FM_ORD, TY_NOTE,
+                    'extraction writes f64::EPSILON as the literal 2.220446049250313e-16 (the same double; Verus has no spec for the constant)',
+                    'contracts of Poly0::indefinite, Poly1::translate, Poly1::evaluate are assumed here and proved in units u_polycalc / u_polyeval',
+                    'bounded (Kani wiring): 2..5 knots', 'that evaluation between two knots picks the right segment is C02'],
+}
+PROPS['C06']['kani']['thorough'] = PROPS['C06']['kani']['quick']
+
+
 def mp(name, module, what):
     return H(name, module, None, True, [what], mustpanic=True)
 
@@ -304,7 +345,10 @@ PROPS['C16'] = {
                         mp('c16_direct_empty_mustpanic', 'piecewise', 'documented rejection: empty piecewise function (evaluate)'),
                         mp('c16_evaluator_empty_mustpanic', 'piecewise', 'documented rejection: empty piecewise function (PiecewiseEvaluator::new)'),
                         mp('c16_evaluate_v_empty_mustpanic', 'piecewise', 'documented rejection: empty piecewise function (evaluate_v)'),
-                        mp('c16_add_nan_end_mustpanic', 'piecewise', 'documented rejection: NaN breakpoint in +')])],
+                        mp('c16_add_nan_end_mustpanic', 'piecewise', 'documented rejection: NaN breakpoint in +'),
+                        mp('c16_linear_one_knot_mustpanic', 'linear', 'documented rejection: fewer than 2 knots'),
+                        mp('c16_linear_no_knots_mustpanic', 'linear', 'documented rejection: fewer than 2 knots'),
+                        mp('c16_spline_two_knots_mustpanic', 'spline', 'documented rejection: fewer than 3 knots')])],
     },
     'probe': False,
     'level': 'other',
